@@ -132,6 +132,10 @@ def line_eq(p0: float, p1: float, x: np.ndarray) -> list:
         """
         p0 = np.around(p0, 3)
         p1 = np.around(p1, 3)
+        if p1[0] == p0[0]:
+            # ridge parallel to the y axis: x only holds the common abscissa of
+            # the two end points, whose ordinates are the values asked for
+            return np.linspace(p0[1], p1[1], len(x))
         m = (p1[1] - p0[1]) / (p1[0] - p0[0])
         return p0[1] + m * (x - p0[0])
 
